@@ -49,6 +49,7 @@ def mk_om(spec, kgrid=None):
     if kind == 'single': return O.SingleSite()
     if kind == 'nointra': return O.NoIntra()
     if kind == 'arr': return O.FromArray(np.array(p, dtype=float))
+    if kind == 'arr32': return O.FromArray(np.array(p, dtype=np.float32))          # a table kept in single precision (values are float32-representable)
     raise ValueError(kind)
 
 def pairs_of(n):
@@ -153,7 +154,7 @@ def sys_lines(sd):
             out.append('sys.clo %d %d %s %d' % (i, j, pr['clo'][0], 1 if pr['clo'][1] else 0))
         if pr.get('om') is not None:
             so = pr['om']
-            out.append('sys.om %d %d %s %d %s' % (i, j, so[0], so[1], fl(so[2:])))
+            out.append('sys.om %d %d %s %d %s' % (i, j, 'arr' if so[0] == 'arr32' else so[0], so[1], fl(so[2:])))
     return out
 
 def feed(drv, sd):
@@ -308,6 +309,9 @@ def gen_system(rng, maxn=3, maxL=32, soft_ok=True, distinct=True):
                                         'om': gen_om_diag(rng, L) if i == j else gen_om_off(rng, L)}
     if n >= 2 and rng.random() < 0.2:
         t = rng.randrange(n); sd['dens'][t] = float('%.5g' % (sd['dens'][t] * rng.choice([1e-5, 3e-6])))      # one dilute component (a tracer / dilute nanocomposite); far smaller densities amplify rounding like eps/rho in h of that pair
+    for key, pr in sd['pairs'].items():
+        if pr['om'][0] == 'arr' and rng.random() < 0.35:
+            pr['om'] = ['arr32', 0] + [float(np.float32(v)) for v in pr['om'][2:]]          # single-precision tables (PRISM.omega must still be double)
     if rng.random() < 0.3: sd['kT_assign'] = rng.choice([1.0, 0.5, 3.0, sd['kT'] * 2])
     if rng.random() < 0.25: sd['dom_from_dk'] = True          # the same grid configured through dk
     if n >= 2 and rng.random() < 0.4:
